@@ -1088,6 +1088,7 @@ def _check(run, tmp):
     # 4. property-level oracle
     failures += oracle(run, rnd, tmp, TT, MT, thorough)
     failures += nested_histories(run, rnd, tmp, thorough)
+    failures += redefinition_histories(run, rnd, tmp, thorough)
     al_fail, al_corr = allowlist_histories(run, rnd, tmp, thorough, tie_msg is None)
     failures += al_fail
     if al_corr and corr_bad is None:
@@ -1113,7 +1114,7 @@ def _check(run, tmp):
                 searched += 'did not reproduce on the real code'
     # verdict
     seen = set()
-    order = {'forced-schedule-min': -1, 'allowlist-history': 1, 'nested-history': 1, 'option-field-history': 2, 'forced-schedule': 0, 'overlap-probe': 1, 'preemption-sweep': 1, 'sequential-history': 2, 'redefinition': 2}
+    order = {'forced-schedule-min': -1, 'allowlist-history': 1, 'nested-history': 1, 'redefinition-history': 1, 'option-field-history': 2, 'forced-schedule': 0, 'overlap-probe': 1, 'preemption-sweep': 1, 'sequential-history': 2, 'redefinition': 2}
     failures.sort(key=lambda f: order.get(f[1].get('kind'), 5))
     for title, rep, cls in failures:
         norm = re.sub(r'\d+', 'N', title)
@@ -1877,6 +1878,138 @@ def nested_histories(run, rnd, tmp, thorough):
 
 
 
+REDEF_SCRIPT = r'''import importlib, json, os, sys, threading
+from malt.impl import api
+from malt.core import converter
+F = converter.Feature
+BODIES = {
+    1: "    return (x + 1, d, K)\n",
+    2: "    y = x * 2\n    return (y + 20, d, K)\n",
+    3: "    if x > 1:\n        x = x - 300\n    return (x, d, K, 3)\n",
+}
+OPTS = [dict(recursive=True, experimental_optional_features=None),
+        dict(recursive=False, experimental_optional_features=None),
+        dict(recursive=True, experimental_optional_features=F.EQUALITY_OPERATORS)]
+
+
+def text(v):
+    return "K = %d\ndef f(x, d=%d):\n%s" % (v * 10, v, BODIES[v])
+
+
+def main():
+    d = sys.argv[2]
+    modname = sys.argv[3]
+    sys.path.insert(0, d)
+    path = os.path.join(d, modname + '.py')
+    out = []
+    mod = None
+    for step in json.loads(sys.argv[1]):
+        if step[0] == 'define':
+            with open(path, 'w') as f:
+                f.write(text(step[1]))
+            importlib.invalidate_caches()
+            mod = importlib.reload(mod) if mod is not None else importlib.import_module(modname)
+        else:
+            _, o, nthreads = step
+            fn = mod.f
+            res = [None] * nthreads
+
+            def work(i):
+                try:
+                    g = api.to_graph(fn, **OPTS[o])
+                    with open(g.ag_module.__file__) as fh:
+                        src = fh.read()
+                    res[i] = [repr(g(5)), repr(fn(5)), src]
+                except Exception as ex:
+                    res[i] = ['raised %s: %s' % (type(ex).__name__, str(ex)[:150]), repr(fn(5)), '']
+            ths = [threading.Thread(target=work, args=(i,)) for i in range(nthreads)]
+            for t in ths:
+                t.start()
+            for t in ths:
+                t.join()
+            out.append(res)
+    print('RESULT ' + json.dumps(out))
+
+
+main()
+'''
+
+
+def redefinition_histories(run, rnd, tmp, thorough):
+    """convert f; rewrite its module file with another body at the same line
+    and name; reload; convert the NEW function object (several option sets,
+    several threads).  Each history runs in a fresh process; every answer is
+    compared with the new function itself and with a conversion of that
+    definition in a process that never saw another one."""
+    from concurrent.futures import ThreadPoolExecutor
+    failures = []
+    script = os.path.join(tmp, 'c10_redef.py')
+    with open(script, 'w') as f:
+        f.write(REDEF_SCRIPT)
+    counter = [0]
+
+    def proc(hist):
+        counter[0] += 1
+        d = vlib.ensure_dir(os.path.join(tmp, 'redef%d_%d' % (counter[0], rnd.randrange(10 ** 6))))
+        rc, out = vlib.sh([vlib.PY, script, json.dumps(hist), d, 'c10_redef_mod'], timeout=300,
+                          env=vlib.repo_env({'TMPDIR': tmp}))
+        m = re.search(r'^RESULT (.*)$', out, re.M)
+        return (json.loads(m.group(1)), None) if m else (None, out[-800:])
+    OPT_TXT = ['recursive=True', 'recursive=False', 'recursive=True, experimental_optional_features=Feature.EQUALITY_OPERATORS']
+    hists = [[['define', 1], ['convert', 0, 1], ['define', 2], ['convert', 0, 1]],
+             [['define', 2], ['convert', 0, 1], ['define', 1], ['convert', 0, 1]],
+             [['define', 1], ['convert', 0, 1], ['define', 3], ['convert', 1, 1], ['convert', 2, 4], ['convert', 0, 3]],
+             [['define', 3], ['convert', 2, 2], ['define', 2], ['convert', 2, 1], ['define', 1], ['convert', 1, 4]]]
+    for _ in range(10 if thorough else 1):
+        h = []
+        for _ in range(rnd.randint(2, 4)):
+            h.append(['define', rnd.randint(1, 3)])
+            for _ in range(rnd.randint(1, 2)):
+                h.append(['convert', rnd.randrange(3), rnd.choice([1, 1, 2, 5])])
+        hists.append(h)
+    refs = [[['define', v], ['convert', o, 1]] for v in (1, 2, 3) for o in range(3)]
+    with ThreadPoolExecutor(max_workers=6) as ex:
+        results = list(ex.map(proc, refs + hists))
+    fresh = {}
+    for ref, (res, err) in zip(refs, results[:len(refs)]):
+        if res is None:
+            failures.append(('fresh-process conversion failed', {'kind': 'redefinition-history', 'output': err}, None))
+            return failures
+        fresh[(ref[0][1], ref[1][1])] = res[0][0]
+    run.count(len(refs))
+
+    def desc(hist):
+        return ['write module c10_redef_mod with body version %d (def f at the same line), %s' % (
+            st[1], 'import' if i == 0 else 'importlib.reload') if st[0] == 'define'
+            else '%d thread(s): g = to_graph(mod.f, %s); g(5)' % (st[2], OPT_TXT[st[1]]) for i, st in enumerate(hist)]
+    for hist, (res, err) in zip(hists, results[len(refs):]):
+        run.count(len(hist))
+        if res is None:
+            failures.append(('a redefinition history crashed', {'kind': 'redefinition-history', 'history': desc(hist), 'output': err}, None))
+            continue
+        cur = None
+        ci = 0
+        for idx, st in enumerate(hist):
+            if st[0] == 'define':
+                cur = st[1]
+                continue
+            want = fresh[(cur, st[1])]
+            for th, got in enumerate(res[ci]):
+                if got[0] != got[1] or got[0] != want[0] or got[2] != want[2]:
+                    what = 'a redefined function is served the conversion of its previous definition (stale source)'
+                    dl = [(a.strip(), b.strip()) for a, b in zip(got[2].split('\n'), want[2].split('\n')) if a != b][:3]
+                    failures.append((what, {'what': what, 'kind': 'redefinition-history', 'history (fresh process)': desc(hist),
+                                            'history_raw': hist, 'failing_step_index': idx, 'thread': th,
+                                            'converted g(5)': got[0], 'the new function itself f(5)': got[1],
+                                            'conversion of this definition in a process that never saw another one: g(5)': want[0],
+                                            'generated source lines (history, fresh)': dl}, None))
+                    return failures
+            ci += 1
+    run.extra['redefinition_histories'] = len(hists)
+    return failures
+
+
+
 def malt_oracle(run, rnd, tmp, MT, thorough):
     """The real transpiler: options are ConversionOptions values, the reference
     is a conversion by a fresh (empty-cache) transpiler and the original
@@ -2080,6 +2213,22 @@ def replay(path):
             print('in the history:', got, '| alone in a fresh process:', want)
             print('REPRODUCED' if got != want else 'not reproduced')
             return 1 if got != want else 0
+        if kind == 'redefinition-history' and rep.get('history_raw'):
+            script = os.path.join(tmp, 'c10_redef.py')
+            with open(script, 'w') as f:
+                f.write(REDEF_SCRIPT)
+            d = vlib.ensure_dir(os.path.join(tmp, 'redef_replay'))
+            _, out = vlib.sh([vlib.PY, script, json.dumps(rep['history_raw']), d, 'c10_redef_mod'], timeout=300,
+                             env=vlib.repo_env({'TMPDIR': tmp}))
+            res = json.loads(re.search(r'^RESULT (.*)$', out, re.M).group(1))
+            rc = 0
+            for step in res:
+                for got in step:
+                    print('converted g(5) = %s ; the function itself f(5) = %s' % (got[0], got[1]))
+                    if got[0] != got[1]:
+                        rc = 1
+            print('REPRODUCED' if rc else 'not reproduced')
+            return rc
         if kind == 'allowlist-history':
             hist = [tuple(x) for x in rep['history_raw']]
             bad, obs = allowlist_histories(None, None, tmp, False, False, only_hist=hist)
